@@ -6,7 +6,7 @@ _BIN = {"add": lambda a, b: a + b, "sub": lambda a, b: a - b, "mul": lambda a, b
         "min": min, "max": max, "pow": math.pow, "atan2": math.atan2}
 _UN = {"neg": lambda a: -a, "abs": abs, "sqrt": math.sqrt, "exp": math.exp, "log": math.log, "erfc": math.erfc, "erf": math.erf,
        "tanh": math.tanh, "sin": math.sin, "cos": math.cos, "tan": math.tan, "acos": math.acos, "asin": math.asin,
-       "deg2rad": lambda a: a * (math.pi / 180.0), "num": lambda a: a}
+       "deg2rad": lambda a: a * (math.pi / 180.0), "rad2deg": lambda a: a * (180.0 / math.pi), "num": lambda a: a}
 
 
 def is_num_obj(v):
